@@ -86,4 +86,41 @@ def wfKindsItems : List Val → Bool
   | v :: rest => wfKinds v && wfKindsItems rest
 end
 
+/-! ## `suppress_posonlyargs` -/
+
+def posonlyKey : Str := cs!"/args/posonlyargs"
+
+/-- The prefix of a list ends with `/args/posonlyargs` and has something before. -/
+def posonlyPre (pre : Str) : Bool := posonlyKey.isSuffixOf pre && posonlyKey.length < pre.length
+
+mutual
+/-- Tree-level `suppress_posonlyargs` (keyed on the path text, like the pass): a list whose prefix ends
+with `/args/posonlyargs` no longer prints its `_length` line; its items stay. -/
+def quietPosonly (pre : Str) : Val → Val
+  | .node ty e r ln fs => .node ty e r ln (quietPosonlyFields pre fs)
+  | .list q xs => .list (q || posonlyPre pre) (quietPosonlyItems pre 1 xs)
+  | .scalar r k => .scalar r k
+def quietPosonlyFields (pre : Str) : List (Str × Val) → List (Str × Val)
+  | [] => []
+  | (n, v) :: rest => (n, quietPosonly (subPre pre n) v) :: quietPosonlyFields pre rest
+def quietPosonlyItems (pre : Str) (i : Nat) : List Val → List Val
+  | [] => []
+  | v :: rest => quietPosonly (subPre pre (dec i)) v :: quietPosonlyItems pre (i + 1) rest
+end
+
+mutual
+/-- Local clauses for `suppress_posonlyargs`: no `=` in names and types; a scalar line is not itself
+of the form `….+/args/posonlyargs/_length=<digits>` (never the case for an `ast` tree). -/
+def wfPosonly (pre : Str) : Val → Bool
+  | .node ty _ _ _ fs => !ty.contains '=' && wfPosonlyFields pre fs
+  | .list _ xs => wfPosonlyItems pre 1 xs
+  | .scalar r _ => !isPosonlyLine (scalarLine pre r)
+def wfPosonlyFields (pre : Str) : List (Str × Val) → Bool
+  | [] => true
+  | (n, v) :: rest => !n.contains '=' && wfPosonly (subPre pre n) v && wfPosonlyFields pre rest
+def wfPosonlyItems (pre : Str) (i : Nat) : List Val → Bool
+  | [] => true
+  | v :: rest => wfPosonly (subPre pre (dec i)) v && wfPosonlyItems pre (i + 1) rest
+end
+
 end Paroxy.Flat
